@@ -198,6 +198,11 @@ def run(ctx: Ctx) -> int:
             p = int(rng.integers(-6, 7)) if mode < 0.85 else int(rng.integers(-40, 40))
             l.append((c, p))
         sum_cases.append(l)
+    # an exactly-zero summand whose power lies far below (or above) the others does not take part in the alignment
+    for zp, others in [(0, [((1, 0, 0, 0), 40)]), (-40, [((1, 0, 0, 0), 0), ((0, 3, 0, -1), 2)]), (70, [((1, 2, 3, 4), 0)]), (-31, [((5, 0, 0, 1), 0)]),
+                       (-100, [((1, 0, 0, 0), 33), ((0, 0, 1, 0), 40), ((0, 0, 0, 0), 90)])]:
+        sum_cases.append([((0, 0, 0, 0), zp)] + others)
+        sum_cases.append(others[:1] + [((0, 0, 0, 0), zp)] + others[1:])
     # many terms (the sum over the stabiliser terms of a component with a dozen T gates has hundreds): every count around the powers of two
     for n in ([63, 64, 65, 100, 127, 129, 200, 257, 1000] if quick else [31, 33, 63, 64, 65, 66, 100, 127, 128, 129, 191, 192, 193, 200, 255, 256, 257, 511, 513, 1000, 1025, 3000]):
         sum_cases.append([(rand_q4(rng, "small"), int(rng.integers(-3, 4))) for _j in range(n)])
@@ -206,9 +211,11 @@ def run(ctx: Ctx) -> int:
         s = ExactScalarArray(jnp.array([c for c, _ in l], dtype=jnp.int32), jnp.array([p for _, p in l], dtype=jnp.int32)).sum()
         sum_impl.append((tuple(int(v) for v in np.asarray(s.coeffs)), int(s.power)))
     for l, (sc, sp) in zip(sum_cases, sum_impl):
-        m = min(p for _, p in l)
-        exact = tuple(sum(c[k] * (1 << (p - m)) for c, p in l) for k in range(4))
-        guard = max(p - m for _, p in l) < 31 and all(sum(abs(c[k]) * (1 << (p - m)) for c, p in l) < H32 for k in range(4))
+        # exactly-zero summands are left out of the alignment: the common power is the smallest power among the non-zero summands
+        nzl = [(c, p) for c, p in l if any(c)]
+        m = min(p for _, p in nzl) if nzl else min(p for _, p in l)
+        exact = tuple(sum(c[k] * (1 << (p - m)) for c, p in nzl) for k in range(4))
+        guard = (not nzl) or (max(p - m for _, p in nzl) < 31 and all(sum(abs(c[k]) * (1 << (p - m)) for c, p in nzl) < H32 for k in range(4)))
         ctx.count(("sum", tuple(l)), nontrivial=len({p for _, p in l}) > 1, bucket="sum-guarded" if guard else "sum-wrapping")
         if guard and (sc, sp) != (exact, m):
             ctx.violation("sum", f"sum of {l} = {list(sc)}*2^{sp}, exact {list(exact)}*2^{m}", {"op": "sum", "terms": l, "impl": [sc, sp], "exact": [exact, m]})
